@@ -175,6 +175,12 @@ def lists():
                 interp.append(rem(c, elems[x]) == c)       # list.remove raises ValueError here (a safety obligation); the spec function is totalised by identity
         interp.append(mem(c, null) == False)
         for n_ in range(0, len(lst) + 1): interp.append(take(c, n_) == cz[lst[:n_]])
+        for n_ in range(0, len(lst) + 1):
+            acc = []
+            for e_ in lst[:n_]:
+                if e_ in acc: acc.remove(e_)
+                acc.append(e_)
+            if tuple(acc) in cz: interp.append(dl(c, n_) == cz[tuple(acc)])
         for lst2, c2 in list(cz.items()):
             if lst + lst2 in cz: interp.append(cat(c, c2) == cz[lst + lst2])
         for x in range(2):
@@ -186,7 +192,7 @@ def lists():
     n = check('LIST_AX', LIST_AX, interp, dom)
     small = {str(LT.z): [cz[l_] for l_ in pyl if len(l_) <= 2], str(T.z): elems, 'Int': [IntVal(k) for k in range(0, 4)]}
     tiny = {str(LT.z): [cz[l_] for l_ in pyl if len(l_) <= 1], str(T.z): elems, 'Int': [IntVal(k) for k in range(0, 3)]}
-    return n + check('LIST_INS_AX', LIST_INS_AX, interp, small) + check('LIST_CAT_AX', LIST_CAT_AX, interp, tiny) + check('LIST_TAKE_AX', LIST_TAKE_AX, interp, {**dom, 'Int': [IntVal(k) for k in range(0, 4)]})
+    return n + check('LIST_INS_AX', LIST_INS_AX, interp, small) + check('LIST_CAT_AX', LIST_CAT_AX, interp, tiny) + check('LIST_TAKE_AX', LIST_TAKE_AX, interp, {**dom, 'Int': [IntVal(k) for k in range(0, 4)]}) + check('LIST_DL_AX', LIST_DL_AX, interp, {**dom, 'Int': [IntVal(k) for k in range(0, 4)]})
 
 
 if __name__ == '__main__':
